@@ -1,2 +1,61 @@
-(* C11 *)
-From Grex Require Import Base.Str.
+(* C11 — escaping of non-ASCII characters: the output is ASCII, the escapes have the documented
+   form \u{hex} (surrogate pairs for astral code points on request) and decode back to the code
+   point. *)
+From Grex Require Import Base.Str Model.Config Model.Cluster Model.Dfa Model.Expr Model.Print
+  Model.Pipeline.
+From Grex Require Import Proofs.PrintShape Proofs.EscapeProps Proofs.PropsGlue.
+Local Open Scope N_scope.
+
+(* with escaping enabled the whole output is ASCII *)
+Theorem C11_ascii : forall isd c db sc ws s,
+  f_esc c = true -> build isd c db sc ws = Some s -> Forall (fun x => x < 128) s.
+Proof. exact build_ascii. Qed.
+
+Theorem C11_ascii_expr : forall isd c d e,
+  f_esc c = true -> expr_from c d = Some e -> Forall (fun x => x < 128) (regexp_str isd c e).
+Proof. exact regexp_str_from_ascii. Qed.
+
+Theorem C11_ascii_codepoint : forall sur c, Forall (fun x => x < 128) (escape_cp sur c).
+Proof. exact escape_cp_ascii. Qed.
+
+(* the form of an escape: ASCII is kept, everything else becomes \u{hex} *)
+Theorem C11_form : forall sur c,
+  (c < 128 -> escape_cp sur c = [c])
+  /\ (128 <= c -> sur = false \/ is_astral c = false ->
+      escape_cp sur c = [92; 117; 123] ++ hex_of_N c ++ [125]).
+Proof.
+  intros sur c. split; [exact (escape_cp_ascii_id sur c)|exact (escape_cp_unicode sur c)].
+Qed.
+
+(* astral code points as surrogate pairs: the two escapes are the UTF-16 encoding *)
+Theorem C11_surrogates : forall c,
+  65536 <= c <= 1114111 ->
+  escape_cp true c = esc_unicode (hi_surrogate c) ++ esc_unicode (lo_surrogate c)
+  /\ 55296 <= hi_surrogate c <= 56319
+  /\ 56320 <= lo_surrogate c <= 57343
+  /\ 65536 + (hi_surrogate c - 55296) * 1024 + (lo_surrogate c - 56320) = c.
+Proof. exact escape_cp_surrogate_full. Qed.
+
+(* lower-case hexadecimal without leading zeros, and it reads back *)
+Theorem C11_hex_roundtrip : forall n, unhex (hex_of_N n) = Some n.
+Proof. exact unhex_hex_of_N. Qed.
+
+Theorem C11_hex_shape : forall n,
+  hex_of_N n <> [] /\ Forall is_hex (hex_of_N n) /\ (n <> 0 -> hd 0 (hex_of_N n) <> 48).
+Proof.
+  intro n. exact (conj (hex_of_N_nonempty n) (conj (hex_of_N_digits n) (hex_of_N_no_leading_zero n))).
+Qed.
+
+(* decoding the escape of a non-ASCII scalar value gives the code point back *)
+Theorem C11_decode : forall sur c,
+  128 <= c -> (c < 55296 \/ 57344 <= c <= 1114111) -> decode_escapes (escape_cp sur c) = [c].
+Proof. exact escape_decode. Qed.
+
+Print Assumptions C11_ascii.
+Print Assumptions C11_ascii_expr.
+Print Assumptions C11_ascii_codepoint.
+Print Assumptions C11_form.
+Print Assumptions C11_surrogates.
+Print Assumptions C11_hex_roundtrip.
+Print Assumptions C11_hex_shape.
+Print Assumptions C11_decode.
